@@ -8,10 +8,15 @@ spec -> code: every distinct abstract state of Actor.tla within the constants is
               sequence and the expected observation; the SAME sequences are replayed on every flavour (native
               flow.Actor subclass, @wrap.Actor.apply, @wrap.Actor.train/.apply, wrap.Actor.type with method names /
               callables / as decorator, an actor with its own set_state) through the actor API and through
-              flow.Functor.preset_state/preset_params; apply is symbolic so the observation is the term TLC expects
+              flow.Functor.preset_state/preset_params; apply is symbolic so the observation is the term TLC expects.
+              Through flow.Functor the behaviours also say WHICH functor object executes an instance (the carrier chosen
+              by Build: a new one or a live one holding the same builder): functor objects are created once, executed
+              for every instance / rebuild assigned to them and pickled by the `pickle` calls - a functor has no memory
 code -> spec: seeded random call sequences over larger constants, recorded with the full projection of the real
               objects after each call, validated call by call by specs/TraceActor.tla
 """
+import concurrent.futures
+import copy
 import json
 import multiprocessing
 import os
@@ -19,6 +24,7 @@ import pickle
 import random
 import subprocess
 import sys
+import zlib
 
 import cloudpickle
 
@@ -99,6 +105,35 @@ class LeakySym(NativeSym):
     def set_state(self, state):
         if state:
             self.__dict__.update(cloudpickle.loads(state))
+
+
+class StickyBuilder(flow.Builder):
+    """Deliberately BROKEN builder for the binding self-test of the functor replay: it instantiates its actor once and
+    hands out that very object ever after - seen through flow.Functor (one builder object per functor) this is a functor
+    that keeps its actor between executions instead of rebuilding it."""
+
+    def __init__(self, actor, kwargs):
+        self._actor, self._kwargs, self._made = actor, dict(kwargs), None
+
+    actor = property(lambda self: self._actor)
+    args = property(lambda self: ())
+    kwargs = property(lambda self: self._kwargs)
+
+    def __call__(self, *args, **kwargs):
+        if self._made is None:
+            self._made = self._actor(**self._kwargs | kwargs)
+        return self._made
+
+    def __copy__(self):
+        return StickyBuilder(self._actor, self._kwargs)
+
+
+class StickySym(NativeSym):
+    """Conforming actor behind the broken builder."""
+
+    @classmethod
+    def builder(cls, *args, **kwargs):
+        return StickyBuilder(cls, kwargs)
 
 
 @wrap.Actor.train
@@ -250,9 +285,11 @@ FLAVOURS = {
         Flavour('class-stateless-name', ClassStatelessName, False, ALL, sat_every=8),
         Flavour('class-stateless-call', ClassStatelessCall, False, ('direct', 'saturated'), sat_every=8),
         Flavour('leaky', LeakySym, True, ('direct',), std=True),  # self-test only
+        Flavour('sticky', StickySym, True, ('functor',), std=True),  # self-test only
     )
 }
-CHECKED = [n for n in FLAVOURS if n != 'leaky']
+SELFTEST = ('leaky', 'sticky')
+CHECKED = [n for n in FLAVOURS if n not in SELFTEST]
 
 
 # ------------------------------------------------------------------------------------------------------------------
@@ -405,27 +442,76 @@ class Probe(flow.Apply):
         return dict(actor.get_params())
 
 
+KINDS = {'train': flow.Train, 'apply': flow.Apply, 'probe': Probe}
+
+
 class ViaFunctor:
-    """flow.Functor: every call builds a fresh actor from the instance's builder, presets params and state."""
+    """flow.Functor: every execution must act on a fresh actor built from the functor's builder, with the params and
+    state presets passed to that very execution.  An instance is [carrier, params preset, state preset]; a carrier is
+    the set of functor OBJECTS (train / apply / probe action) created ONCE from a builder.  Which carrier executes an
+    instance is decided by the behaviour (Actor.tla, BuildOn: a new one or a live one holding the same builder), so
+    one functor object is executed again and again with the presets of different instances / rebuilds."""
 
     stage = None
 
     def __init__(self, flav, p0, ni):
         self.flav = flav
         self.builder = flav.actor.builder(**kw(p0))
-        self.inst = [None] * ni  # [builder, params preset, state preset]
+        self.inst = [None] * ni  # [carrier id, params preset, state preset]
         self.snap = [None] * ni
-        self.n = 0
+        self.carriers = {}  # id -> {'builder': its builder, 'train' / 'apply' / 'probe': functor objects}
+        self.n = self.reused = 0
+        self.salt = None  # replays of exported behaviours: a number derived from the behaviour (see _carrier)
 
     def _serde(self, obj):
         self.n += 1
         mod = pickle if (self.flav.std and self.n % 2 == 0) else cloudpickle
         return mod.loads(mod.dumps(obj))
 
-    def _exec(self, i, action, *args):
-        builder, preset, state = self.inst[i]
-        functor = action.functor(builder).preset_state().preset_params()
-        return functor.execute(dict(preset), state, *args)
+    def _exec(self, i, kind, *args):
+        carrier, preset, state = self.inst[i]
+        return self.carriers[carrier][kind].execute(dict(preset), state, *args)
+
+    def _builder(self, p):
+        return self.builder.update(**kw(p)) if kw(p) else self.builder
+
+    def offers(self):
+        """[(carrier, override)]: the live functor objects that may execute an instance built now, each with the
+        build-time override under which the instance gets exactly the builder that functor holds"""
+        have, out = dict(self.builder.kwargs), []
+        for c in sorted({r[0] for r in self.inst if r is not None and isinstance(r[0], int)}):
+            held = dict(self.carriers[c]['builder'].kwargs)
+            if set(have) <= set(held) <= set(KEYS):  # an override can set any key but not drop one
+                out.append((c, [held[k] if k in held and have.get(k, ABSENT) != held[k] else ABSENT for k in KEYS]))
+        return out
+
+    def _carrier(self, builder, c):
+        if not c:  # no carrier named by the caller: a new one
+            self.n += 1
+            c = f'new-{self.n}'
+        have = self.carriers.get(c)
+        if have is None:
+            if any(other['builder'] is builder for other in self.carriers.values()):
+                try:  # carriers do not share their builder OBJECT either (not essential: only makes the self-test sharp)
+                    builder = copy.copy(builder)
+                except Exception:  # pylint: disable=broad-except
+                    pass
+            self.carriers[c] = {'builder': builder, **{kind: action().functor(builder).preset_state().preset_params()
+                                                       for kind, action in KINDS.items()}}
+            return c
+        self.reused += 1
+        if self.salt is not None and (self.salt + self.reused) % (16 * self.flav.sat_every) == 0:
+            # a functor object about to execute another instance is shipped first, now and then (pickling by value is
+            # slow): a derived behaviour, sound because Actor.tla proves PickleIsIdentity (TLC itself never continues a
+            # history beyond a no-op call) - whatever the functor gathered in its earlier executions would travel along
+            self.stage = 'pickle'
+            self.carriers[c] = have = self._serde(have)
+            self.stage = None
+        if dict(have['builder'].kwargs) != dict(builder.kwargs):
+            # Actor.tla offers a live carrier only for an equal builder: the real builders deviate from the modelled ones
+            raise AssertionError(f'builder kwargs {dict(builder.kwargs)} where the model has those of an earlier builder, '
+                                 f'{dict(have["builder"].kwargs)}')
+        return c
 
     def call(self, op, i, j, d, p):
         i, j = i - 1, j - 1
@@ -433,10 +519,10 @@ class ViaFunctor:
             self.builder = self.builder.update(**kw(p))
         elif op == 'reset':
             self.builder = self.builder.reset(**kw(p))
-        elif op == 'build':
-            self.inst[i] = [self.builder.update(**kw(p)) if kw(p) else self.builder, {}, None]
+        elif op == 'build':  # j + 1 = the carrier
+            self.inst[i] = [self._carrier(self._builder(p), j + 1), {}, None]
         elif op == 'train':
-            self.inst[i][2] = self._exec(i, flow.Train(), ('x', d), ('y', d))
+            self.inst[i][2] = self._exec(i, 'train', ('x', d), ('y', d))
             if not isinstance(self.inst[i][2], bytes):
                 raise AssertionError('state is not bytes')
         elif op == 'getstate':
@@ -449,25 +535,38 @@ class ViaFunctor:
                 self.inst[i][2] = b''
         elif op == 'setparams':
             self.inst[i][1].update(kw(p))
-        elif op == 'pickle':  # the functor itself must be serialisable; presets are plain values
-            builder, preset, state = self.inst[i]
-            functor = self._serde(flow.Apply().functor(builder).preset_state())
-            self.inst[i] = [functor.builder, self._serde(preset), self._serde(state)]
+        elif op == 'pickle':  # the functor objects themselves must be serialisable; presets are plain values
+            carrier, preset, state = self.inst[i]
+            self.carriers[carrier] = self._serde(self.carriers[carrier])
+            self.inst[i] = [carrier, self._serde(preset), self._serde(state)]
         elif op == 'pickleb':
             self.builder = self._serde(self.builder)
         elif op == 'apply':
-            return project_term(self._exec(i, flow.Apply(), ('x', d)), ('x', d))
+            return project_term(self._exec(i, 'apply', ('x', d)), ('x', d))
         else:
             raise tlc.MachineryError(f'unknown op {op}')
         return None
 
+    def _observe(self, i, data):
+        return observe_actor(lambda: self._exec(i, 'probe'), lambda x: self._exec(i, 'apply', x), data)
+
     def observe(self, data):
-        return [UNBUILT if r is None else observe_actor(lambda i=i: self._exec(i, Probe()),
-                                                        lambda x, i=i: self._exec(i, flow.Apply(), x), data)
-                for i, r in enumerate(self.inst)]
+        got = [UNBUILT if r is None else self._observe(i, data) for i, r in enumerate(self.inst)]
+        # functor objects executing several instances: one more look in the opposite order (what an execution shows
+        # must not depend on the executions before it); the instance observed last was just looked at
+        carriers = [r[0] for r in self.inst if r is not None]
+        shared = [i for i, r in enumerate(self.inst) if r is not None and carriers.count(r[0]) > 1]
+        for i in reversed(shared[:-1]):
+            try:  # one execution of the apply functor shows the params in force and the model
+                again = project_term(self._exec(i, 'apply', ('x', data[0])), ('x', data[0]))[:2]
+            except RuntimeError:
+                again = [got[i][1], []]
+            if again != got[i][1:]:
+                got[i] = [True, got[i][1], ['execution depends on the executions before it', got[i][1:], again]]
+        return got
 
     def stateful(self):
-        return [None if r is None else (r[0].actor.is_stateful(),) * 2 for r in self.inst]
+        return [None if r is None else (self.carriers[r[0]]['builder'].actor.is_stateful(),) * 2 for r in self.inst]
 
     def kwargs(self):
         return partial(dict(self.builder.kwargs))
@@ -508,6 +607,7 @@ def replay_one(flav, mode, beh, data):
     step, op, machine = 0, 'init', None
     try:
         machine = MODES[mode](flav, h[0][4], len(exp_inst))
+        machine.salt = zlib.crc32(json.dumps(h).encode())
         for step, (op, i, j, d, p) in enumerate(h[1:], start=1):
             empty = machine.call(op, i, j, d, p)
             if op == 'getstate' and not flav.stateful and not empty:
@@ -535,18 +635,49 @@ def replay_one(flav, mode, beh, data):
 CAP = 20  # examples kept per (flavour, mode, failing call) and chunk
 
 
+def reuses(h):
+    """positions (0-based) of the build calls executed by an EXISTING functor object (a new carrier is named after the
+    1-based position of its build call)"""
+    return [k for k, e in enumerate(h) if e[0] == 'build' and e[2] != k + 1]
+
+
+def carrier_facts(h):
+    """which carrier situations a behaviour exercises (vacuity guard of the functor replay)"""
+    facts = set()
+    for k in reuses(h):
+        i, c = h[k][1], h[k][2]
+        before = [e for e in h[:k] if e[0] == 'build' and e[2] == c]
+        facts.add('rebuilt-on-own-carrier' if before[-1][1] == i else 'carrier-shared-by-instances')
+        users = {e[1] for e in before}
+        if any(e[0] == 'train' and e[1] in users for e in h[:k]):
+            facts.add('reused-after-training')
+        if any(e[0] == 'setparams' and e[1] in users for e in h[:k]):
+            facts.add('reused-after-setparams')
+        for e in h[k + 1:]:
+            if e[1] == i and e[0] in ('train', 'setstate', 'setparams', 'pickle'):
+                facts.add(f'reused-then-{e[0]}')
+    return facts
+
+
 def _chunk(args):
     names, lines, data, want_dumps = args
     done, failures, dumps, counts, lastops = 0, [], [], {}, set()
     for n, line in enumerate(lines):
         beh = json.loads(line)
         lastops.add(beh[0][-1][0])
+        shared = reuses(beh[0])
+        lastops.update(carrier_facts(beh[0]))
+        # the carrier of a build means nothing through the direct actor API: a behaviour ENDING in a build on an existing
+        # carrier is, there, the twin of the exported behaviour ending in the same build on a new carrier
+        twin = bool(shared) and shared[-1] == len(beh[0]) - 1
         for name in names:
             flav = FLAVOURS[name]
             if flav.needs_a and not constructible(beh[0]):
                 continue  # generator exclusion, see constructible()
             for mode in flav.modes:
                 if mode == 'saturated' and n % flav.sat_every:
+                    continue
+                if twin and mode != 'functor':
                     continue
                 fail = replay_one(flav, mode, beh, data)
                 if fail is None:
@@ -592,15 +723,17 @@ def replay_all(lines, names, data, procs, want_dumps=0):
     return done, failures, dumps, counts, lastops
 
 
-def show(h):
-    return [[e[0]] + [x for x in e[1:4] if x] + ([kw(e[4])] if kw(e[4]) else []) for e in h]
+def show(h, carriers=True):
+    """compact call list; a build shows the functor object executing the instance from there on (flow.Functor only)"""
+    return [[e[0]] + ([e[1]] + ([f'functor#{e[2]}'] if carriers and e[2] else []) if e[0] == 'build' else [x for x in e[1:4] if x])
+            + ([kw(e[4])] if kw(e[4]) else []) for e in h]
 
 
 def report(chk, failures):
     for fail in failures:
         flav = FLAVOURS[fail['flavour']]
         finding = known_finding(flav, fail['mode'], fail['h'], fail['step'], fail['op'])
-        chk.fail(f'{fail["flavour"]}/{fail["mode"]} after {show(fail["h"][:fail["step"] + 1])}: {fail["what"]}',
+        chk.fail(f'{fail["flavour"]}/{fail["mode"]} after {show(fail["h"][:fail["step"] + 1], fail["mode"] == "functor")}: {fail["what"]}',
                  {'kind': 'behaviour', 'flavour': fail['flavour'], 'mode': fail['mode'],
                   'behaviour': [fail['h'], fail['expected'], fail['bld']], 'what': fail['what']}, finding=finding)
 
@@ -609,9 +742,9 @@ def report(chk, failures):
 # TLC runs
 # ------------------------------------------------------------------------------------------------------------------
 INVARIANTS = ('TypeOK', 'TransferEquivalence', 'BuilderParamsWin', 'UntrainedUnlessFed', 'StatelessNeverTrained',
-              'ApplyFunctional')
+              'ApplyFunctional', 'CarrierHoldsBuilder')
 PROPERTIES = ('ParamsOnlyBySetParams', 'ModelOnlyByTrainOrState', 'EmptyIsNoop', 'PickleIsIdentity', 'BuilderIsolated',
-              'SnapshotImmutable', 'SetStateKeepsParams')
+              'SnapshotImmutable', 'SetStateKeepsParams', 'FunctorHasNoMemory')
 
 
 def cfg_actor(path, ht, maxv, depth, rich, data, export=True):
@@ -623,10 +756,10 @@ def cfg_actor(path, ht, maxv, depth, rich, data, export=True):
     return path
 
 
-def cfg_impl(path, flavour, mode, variant, depth, ht='TRUE'):
+def cfg_impl(path, flavour, mode, variant, depth, ht='TRUE', view='iview'):
     with open(path, 'w') as fh:
         fh.write(f'SPECIFICATION SpecI\nCONSTANTS NP = 2\n MaxV = 1\n NI = 2\n Data = {{1}}\n HTS = {{{ht}}}\n Depth = {depth}\n'
-                 f' Rich = FALSE\n Flavour = "{flavour}"\n Mode = "{mode}"\n Variant = "{variant}"\nVIEW iview\n'
+                 f' Rich = FALSE\n Flavour = "{flavour}"\n Mode = "{mode}"\n Variant = "{variant}"\nVIEW {view}\n'
                  'CONSTRAINT Bound\nINVARIANT Refines\nINVARIANT BlobRefines\nINVARIANT BuilderParamsWin\nCHECK_DEADLOCK FALSE\n')
     return path
 
@@ -634,6 +767,8 @@ def cfg_impl(path, flavour, mode, variant, depth, ht='TRUE'):
 STATEFUL_ACTIONS = ['Update', 'Build', 'Train', 'GetState', 'SetState', 'SetEmpty', 'SetParams', 'Pickle', 'PickleB', 'Apply']
 STATELESS_ACTIONS = [a for a in STATEFUL_ACTIONS if a != 'Train']
 NOOPS = {'pickle', 'pickleb', 'setempty'}
+CARRIER_FACTS = {'rebuilt-on-own-carrier', 'carrier-shared-by-instances', 'reused-after-training', 'reused-after-setparams',
+                 'reused-then-train', 'reused-then-setstate', 'reused-then-setparams', 'reused-then-pickle'}
 
 
 def main(chk):
@@ -645,22 +780,35 @@ def main(chk):
     # which is exact only under strict breadth-first search
 
     # ---- 1. implementation model refines the requirement; seeded deviations are refuted (the model can tell them apart)
+    # (independent single-worker TLC runs, a few at a time)
     depth = 4 if chk.quick else 5
-    for flavour in ('native', 'pair', 'class', 'custom'):
-        for mode in ('direct', 'functor'):
-            if (flavour, mode) == ('custom', 'direct'):
-                continue
-            chk.tlc('ActorImpl', cfg_impl(os.path.join(tmp, f'i-{flavour}-{mode}.cfg'), flavour, mode, 'asis', depth),
-                    require=['BuildI', 'TrainI', 'GetStateI', 'SetStateI', 'SetEmptyI', 'SetParamsI', 'PickleI'], workers=1)
-    chk.tlc('ActorImpl', cfg_impl(os.path.join(tmp, 'i-stateless.cfg'), 'native', 'direct', 'asis', depth, ht='FALSE'),
-            require=['BuildI', 'GetStateI', 'SetStateI', 'PickleI'], workers=1)
-    for name, flavour, mode, variant in (('model_refutes_custom_set_state_via_direct_api', 'custom', 'direct', 'asis'),
-                                         ('model_refutes_params_restored_before_set_state', 'custom', 'functor', 'preset_before'),
-                                         ('model_refutes_empty_state_resetting_the_model', 'pair', 'direct', 'empty_resets'),
-                                         ('model_refutes_pickle_dropping_params', 'class', 'direct', 'pickle_drops_params')):
-        res = chk.tlc('ActorImpl', cfg_impl(os.path.join(tmp, f'm-{variant}-{flavour}.cfg'), flavour, mode, variant, 4),
-                      expect_ok=False, workers=1, coverage=False)
-        chk.selftest(name, res.violated == 'Refines')
+    with concurrent.futures.ThreadPoolExecutor(max_workers=min(4, procs)) as pool:
+        asis = []
+        for flavour in ('native', 'pair', 'class', 'custom'):
+            for mode in ('direct', 'functor'):
+                if (flavour, mode) == ('custom', 'direct'):
+                    continue
+                asis.append(pool.submit(
+                    chk.tlc, 'ActorImpl', cfg_impl(os.path.join(tmp, f'i-{flavour}-{mode}.cfg'), flavour, mode, 'asis', depth),
+                    require=['BuildI', 'TrainI', 'GetStateI', 'SetStateI', 'SetEmptyI', 'SetParamsI', 'PickleI'], workers=1))
+        asis.append(pool.submit(
+            chk.tlc, 'ActorImpl', cfg_impl(os.path.join(tmp, 'i-stateless.cfg'), 'native', 'direct', 'asis', depth, ht='FALSE'),
+            require=['BuildI', 'GetStateI', 'SetStateI', 'PickleI'], workers=1))
+        refuted = []
+        for name, flavour, mode, variant, view in (
+                ('model_refutes_custom_set_state_via_direct_api', 'custom', 'direct', 'asis', 'iview'),
+                ('model_refutes_params_restored_before_set_state', 'custom', 'functor', 'preset_before', 'iview'),
+                ('model_refutes_empty_state_resetting_the_model', 'pair', 'direct', 'empty_resets', 'iview'),
+                ('model_refutes_pickle_dropping_params', 'class', 'direct', 'pickle_drops_params', 'iview'),
+                # a functor object that builds its actor once and keeps it: visible only when the object is executed again
+                ('model_refutes_functor_keeping_its_actor', 'native', 'functor', 'functor_keeps_actor', 'iviewK')):
+            refuted.append((name, pool.submit(
+                chk.tlc, 'ActorImpl', cfg_impl(os.path.join(tmp, f'm-{variant}-{flavour}.cfg'), flavour, mode, variant, 4, view=view),
+                expect_ok=False, workers=1, coverage=False)))
+        for job in asis:
+            job.result()
+        for name, job in refuted:
+            chk.selftest(name, job.result().violated == 'Refines')
 
     # ---- 2. spec -> code: every transition of the bounded state graph, replayed on every flavour
     # (has train, MaxV, Depth = calls after the initial build, Rich, Data)
@@ -670,7 +818,7 @@ def main(chk):
         plans = [('TRUE', 1, 5, 'FALSE', (1, 2)), ('TRUE', 1, 6, 'FALSE', (1,)), ('TRUE', 2, 3, 'TRUE', (1,)),
                  ('FALSE', 1, 5, 'TRUE', (1,)), ('FALSE', 2, 3, 'TRUE', (1,))]
     total, all_failures, dumps, counts = 0, [], [], {}
-    leaky_caught = 0
+    leaky_caught, sticky, facts = 0, None, set()
     for n, (ht, maxv, depth, rich, data) in enumerate(plans):
         res = chk.tlc('Actor', cfg_actor(os.path.join(tmp, f'a{n}.cfg'), ht, maxv, depth, rich, data), workers=1,
                       require=(STATEFUL_ACTIONS if ht == 'TRUE' else STATELESS_ACTIONS) + (['Reset'] if rich == 'TRUE' else []))
@@ -683,6 +831,7 @@ def main(chk):
         if not NOOPS <= lastops:
             raise tlc.MachineryError(f'exported behaviours never end in {NOOPS - lastops}: TLC no longer evaluates the Export '
                                      'invariant on already seen states')
+        facts |= lastops & CARRIER_FACTS
         total += done
         all_failures += failures
         dumps += dd
@@ -699,9 +848,22 @@ def main(chk):
             # binding self-test: a contract-breaking actor pushed through the same pipeline must be flagged
             _, _, _, leaks, _ = replay_all(lines, ['leaky'], list(data), procs)
             leaky_caught = sum(leaks.values())
+            # ... and so must a functor that keeps its actor between executions, in exactly the behaviours that execute
+            # one functor object for several instances / rebuilds (nowhere else is it observable)
+            fine, flagged, _, kept, _ = replay_all(lines, ['sticky'], list(data), procs)
+            sticky = (fine, sum(kept.values()), all(reuses(f['h']) for f in flagged))
         del lines
     chk.selftest('params_leaking_actor_flagged_by_replay', leaky_caught > 0)
+    chk.selftest('functor_keeping_its_actor_flagged_by_replay', sticky[1] > 0)
+    if not all_failures and not (sticky[0] and sticky[2]):
+        # (judged only on a tree that conforms otherwise: a broken flow.Functor may make this flavour fail anywhere)
+        raise tlc.MachineryError('the functor that keeps its actor is flagged in behaviours that never execute a functor object '
+                                 'twice: the functor replay itself leaks between functor objects')
+    if facts != CARRIER_FACTS:
+        raise tlc.MachineryError(f'the exported behaviours never exercise {sorted(CARRIER_FACTS - facts)}')
     chk.extra['leaky_actor_behaviours_flagged'] = leaky_caught
+    chk.extra['actor_keeping_functor_behaviours_flagged'] = sticky[1]
+    chk.extra['functor_reuse_exercised'] = sorted(facts)
     chk.extra['nonconforming_replays_by_flavour/mode/call'] = counts
     report(chk, all_failures)
     chk.validated(total)
@@ -716,6 +878,8 @@ def main(chk):
     chk.assume('symbolic actors take keyword hyper-parameters a, b with constructor default 0 and report all of them from '
                'get_params (actors reporting only a subset are outside the precedence clause)')
     chk.assume('the apply of an untrained decorated pair refuses with RuntimeError; that is projected as "model = []"')
+    chk.assume('flow.Functor.execute acts on an actor rebuilt from the functor\'s builder on EVERY execution (a functor object '
+               'may be executed many times, with different presets, and pickled in between)')
 
 
 # ------------------------------------------------------------------------------------------------------------------
@@ -825,6 +989,11 @@ def record_trace(flav, mode, rnd, length, script=None, p0=None):
                     p[0] = rnd.choice(vals)
             elif op == 'build':
                 p = rnd_partial(True) if rnd.random() < 0.4 else p
+                if mode == 'functor':
+                    # the functor object executing the instance from here on: a live one holding the same builder (every
+                    # other time there is one) or a new one, named like Actor.tla names it (position of the call in hist)
+                    old = machine.offers()
+                    j, p = rnd.choice(old) if old and rnd.random() < 0.6 else (step + 2, p)
             elif op in ('train', 'apply'):
                 d = rnd.choice(data)
             elif op == 'setstate':
